@@ -987,3 +987,51 @@ def _mul_consts(b, o, depth=5):
         elif r["k"] == "use":
             out += _mul_consts(b, r["o"], depth - 1)
     return out
+
+
+IO_RESIDUAL = re.compile(r"FromResidual<std::result::Result<std::convert::Infallible, std::io::Error>>>::from_residual$")
+
+
+def rule_errprop_io(ctx, R):
+    """the connection loop treats Io/Connection errors as `peer gone` (no reply, connection
+    removed, the batch's replies dropped) -- correct for the client's own socket, wrong for an
+    I/O failure inside a command (dump directory missing, disk full).  So no error that can
+    propagate out of process_normal_command is of the Io/Connection class: along the error flow
+    no `?` converts a std::io::Error and no FerrousError::Io/Connection is constructed."""
+    import errflow
+    fn = SERVER + "process_normal_command"
+    ctx.prog.need(fn)
+    E = errflow.ErrFlow(ctx)
+    org = E.origins(fn)
+    followed = sorted(E.memo)
+    R.floor("functions_on_the_error_flow", min(len(followed), 20))
+    hits = []
+    for f in followed:
+        fb = ctx.prog.bodies.get(f)
+        if fb is None or not fb.locals[0].startswith(("std::result::Result<", "std::option::Option<std::result::Result<")) or "FerrousError" not in fb.locals[0]:
+            continue
+        for i, t in fb.calls():
+            if IO_RESIDUAL.search(t["f"] or "") and t["d"]["l"] == 0:
+                hits.append((f, i, "`?` on a std::io::Error"))
+        for x, bb in enumerate(fb.bbs):
+            if bb.get("cleanup"):
+                continue
+            for st in bb["s"]:
+                if st["k"] == "=" and st["r"]["k"] == "agg" and st["r"]["a"] in ("error::FerrousError::Io", "error::FerrousError::Connection"):
+                    # flows into an Err of _0 ?
+                    hits.append((f, x, "a %s error is constructed" % st["r"]["a"].rsplit("::", 1)[-1]))
+    R.inst(fn, "io-class-errors-on-the-error-flow", {"functions_followed": len(followed), "origins": len(org), "io_class_sites": len(hits)})
+    seen = set()
+    for f, i, what in hits:
+        fb = ctx.prog.bodies[f]
+        k = runner_stable(f)
+        if k in seen:
+            continue
+        seen.add(k)
+        R.finding(f, "io-class-error-propagates-from-command",
+                  "%s in %s (line %d) and can propagate out of process_normal_command: the connection loop takes Io/Connection errors for a vanished peer, so the client gets no reply to this command, loses the replies of the rest of the batch and is disconnected" % (what, f.split("::")[-1], fb.bb_line(i)), fb.loc(i))
+
+
+def runner_stable(fn):
+    import runner
+    return runner.stable_fn(fn) if hasattr(runner, "stable_fn") else fn
